@@ -22,6 +22,7 @@ import (
 	spf "github.com/lidofinance/dc4bc/fsm/state_machines/signature_proposal_fsm"
 	sif "github.com/lidofinance/dc4bc/fsm/state_machines/signing_proposal_fsm"
 	"github.com/lidofinance/dc4bc/storage"
+	"github.com/lidofinance/dc4bc/verifshim/vleveldb"
 
 	"verif/mc/kit"
 	"verif/mc/oracle"
@@ -254,5 +255,90 @@ func c02TwoRounds(r *kit.Run, tier string) int {
 			}
 		}
 	}
+	return count
+}
+
+// c02FailingWrites: one database write of one machine FAILS (the error is returned to the machine,
+// nothing is written - a full disk) inside one of its key-generation operations; the operator feeds
+// the operation again when the machine reports a fatal error. Whatever happens to the round: if
+// any node becomes signing-ready, the statement must hold.
+func c02FailingWrites(r *kit.Run, tier string) int {
+	n, t := 3, 2
+	count, fired, ready := 0, 0, 0
+	for mi := 0; mi < n; mi++ {
+		for step := 1; step <= 4; step++ {
+			for k := 1; k <= 3; k++ {
+				if r.TimeUp() {
+					return count
+				}
+				label := fmt.Sprintf("database write %d of machine %d fails inside its key-generation operation %d", k, mi, step)
+				trace := map[string]interface{}{"scenario": "failing-machine-write", "machine": mi, "operation": step, "write": k}
+				w, err := world.NewWorld(n)
+				if err != nil {
+					r.Infra("world: %v", err)
+				}
+				armed, writes, did, steps := false, 0, false, 0
+				path := w.Airs[mi].DBPath()
+				world.RegisterDBHook(path, func(op, phase string, key []byte) {
+					if !armed || phase != "pre" || op == "open" {
+						return
+					}
+					writes++
+					if writes == k && !did {
+						did = true
+						panic(vleveldb.InjectedFailure{Msg: "injected: no space left on device"})
+					}
+				})
+				round, err := w.StartDKG(t, n-1)
+				if err != nil {
+					r.Infra("StartDKG: %v", err)
+				}
+				for iter := 0; iter < 200; iter++ {
+					if err := w.DrainAll(); err != nil {
+						r.Infra("%s: %v", label, err)
+					}
+					cnt := 0
+					for i := 0; i < n; i++ {
+						for _, op := range w.Nodes[i].PendingOps() {
+							isDKGStep := string(op.Type) != string(spf.StateAwaitParticipantsConfirmations)
+							if i == mi && isDKGStep {
+								steps++
+								armed, writes = steps == step, 0
+							}
+							err := w.Operate(i, op.ID)
+							armed = false
+							if err != nil {
+								// a fatal error of the machine: the operator feeds the operation again
+								_ = w.Operate(i, op.ID)
+							}
+							cnt++
+						}
+					}
+					if cnt == 0 {
+						break
+					}
+				}
+				world.UnregisterDBHook(path)
+				if did {
+					fired++
+				}
+				for _, nd := range w.Nodes {
+					if nd.RoundState(round) == string(sif.StateSigningIdle) {
+						ready++
+						break
+					}
+				}
+				judgeRoundOnWorld(r, w, round, n, t, label, trace)
+				count++
+				w.Close()
+				for _, a := range w.Airs {
+					_ = os.RemoveAll(a.Dir)
+				}
+			}
+		}
+	}
+	r.Set("failing_write_ceremonies", count)
+	r.Set("failing_write_ceremonies_in_which_the_write_failed", fired)
+	r.Set("failing_write_ceremonies_that_became_signing_ready", ready)
 	return count
 }
